@@ -27,10 +27,15 @@ func zzH_C07_forkchoice_classification(t *zzT) {
 	}
 	slot := validator.NewBlockSlot(t0, blockTime)
 	id := func(name string) []byte { return []byte{t.U8(name)} }
+	// header timestamps need not be slot-aligned: an offset inside the slot (seed C07-11 compared raw
+	// timestamps instead of slot numbers — only visible with two timestamps inside one slot)
+	offs := []uint32{0, 3, blockTime - 1}
+	lastOff := offs[t.Choice("last.offset", 3)]
+	curOff := offs[t.Choice("cur.offset", 3)]
 	last := &blockchain.BlockHeader{ID: id("last.id"), Height: t.U32("last.h"), MaxHeightPrevoted: t.U32("last.mhp"),
-		PreviousBlockID: id("last.prev"), GeneratorAddress: id("last.gen"), Timestamp: t0 + uint32(t.Range("last.slot", 0, 2))*blockTime}
+		PreviousBlockID: id("last.prev"), GeneratorAddress: id("last.gen"), Timestamp: t0 + uint32(t.Range("last.slot", 0, 2))*blockTime + lastOff}
 	cur := &blockchain.BlockHeader{ID: id("cur.id"), Height: t.U32("cur.h"), MaxHeightPrevoted: t.U32("cur.mhp"),
-		PreviousBlockID: id("cur.prev"), GeneratorAddress: id("cur.gen"), Timestamp: t0 + uint32(t.Range("cur.slot", 0, 2))*blockTime}
+		PreviousBlockID: id("cur.prev"), GeneratorAddress: id("cur.gen"), Timestamp: t0 + uint32(t.Range("cur.slot", 0, 2))*blockTime + curOff}
 	// receive times: slot index of "now" and of the last block's reception (or never: synced)
 	nowSlot := t.Range("now.slot", 0, 3)
 	lastRecvKind := t.Range("lastRecv", 0, 3) // 3 = nil (from sync)
